@@ -17,6 +17,7 @@ import (
 	"strconv"
 	"strings"
 	"sync"
+	"sync/atomic"
 	"testing"
 	"time"
 
@@ -78,9 +79,30 @@ func respBytes(attempt, n int) []byte {
 	return b
 }
 
-type seekBody struct{ *bytes.Reader }
+// seekBody behaves like an *os.File handed over as a request body: seekable, and really closable (once closed, reading and
+// seeking fail). The adapter must not let an attempt's transport close what later attempts still have to rewind.
+type seekBody struct {
+	r      *bytes.Reader
+	closed *atomic.Bool
+}
 
-func (seekBody) Close() error { return nil }
+func newSeekBody(b []byte) seekBody { return seekBody{bytes.NewReader(b), new(atomic.Bool)} }
+
+func (s seekBody) Read(p []byte) (int, error) {
+	if s.closed.Load() {
+		return 0, errors.New("read: file already closed")
+	}
+	return s.r.Read(p)
+}
+
+func (s seekBody) Seek(off int64, whence int) (int64, error) {
+	if s.closed.Load() {
+		return 0, errors.New("seek: file already closed")
+	}
+	return s.r.Seek(off, whence)
+}
+
+func (s seekBody) Close() error { s.closed.Store(true); return nil }
 
 // streamBody is a plain streaming ReadCloser that returns short reads.
 type streamBody struct {
@@ -281,7 +303,7 @@ func runHTTP(sc httpScenario) (out httpOut) {
 	case "strings-reader":
 		rdr = strings.NewReader(string(body))
 	case "seekable":
-		rdr = seekBody{bytes.NewReader(body)}
+		rdr = newSeekBody(body)
 	case "stream":
 		rdr = &streamBody{data: body}
 	case "empty":
